@@ -21,7 +21,7 @@ F = Fraction
 META = dict(
     bounds=dict(
         quick="every pattern of degree 0..3 with <=2 interior knots (sampled) on non-uniform rational values; polynomial and rational "
-              "(concrete weights); node sets: npts unisolvent nodes, npts+2 and 2*npts nodes, the documented default nodes; "
+              "(concrete weights); node sets: npts unisolvent nodes, npts+2 (distinct, and with two nodes repeated) and 2*npts nodes, the documented default nodes; "
               "scalar and 2-D data",
         thorough="all patterns of degree 0..3 (<=2 interior knots) and degree<=2 with 3, two value assignments",
     ),
@@ -49,6 +49,7 @@ def configs(tier, seed):
                 r = " rat" if rat else ""
                 cfgs.append(dict(name=f"points {tag}{r} n=npts", kind="points", extra=0, rat=rat, dim=(i % 2) * 2 * (not rat), **base))
                 cfgs.append(dict(name=f"points {tag}{r} n=npts+2", kind="points", extra=2, rat=rat, dim=0, **base))
+                cfgs.append(dict(name=f"points {tag}{r} n=npts+2, two nodes given twice", kind="points", extra=2, dup=True, rat=rat, dim=0, **base))
                 cfgs.append(dict(name=f"samples {tag}{r}", kind="samples", rat=rat, dim=0, **base))
                 cfgs.append(dict(name=f"function {tag}{r}", kind="function", rat=rat, dim=(i % 3 == 0) * 2 * (not rat), **base))
             cfgs.append(dict(name=f"default nodes {tag}", kind="default", rat=False, dim=0, **base))
@@ -121,6 +122,10 @@ def body(env, cfg):
     if kind == "points":
         m = kv.n + cfg["extra"]
         nodes = greville_like(kv, m, p)
+        if cfg.get("dup"):
+            # a node may occur more than once, each time with its own data point: every (node, point) pair counts
+            nodes = greville_like(kv, kv.n, p)
+            nodes = nodes + [nodes[0], nodes[kv.n // 2]]
         # the nodes need not be given in increasing order: least squares does not depend on the order of the (node, point) pairs
         rot = (p + len(mults) + cfg["extra"]) % m
         nodes = nodes[rot:][::-1] + nodes[:rot]
